@@ -208,6 +208,11 @@ def run_case(case):
         check_grouped(u, src, dims, labels, [g1, [g2[0]], [g2[1]]], what + " [axis by name]", {"op": "unflatten"})
         u = lib(lambda: f.unflatten(axis=0), what=what, sig={"op": "unflatten"})
         check_grouped(u, src, dims, labels, [[g1[0]], [g1[1]], g2], what + " [axis by position]", {"op": "unflatten"})
+        # no axis given: every grouped axis is expanded
+        u = lib(lambda: f.unflatten(), what=what + " [unflatten() of two groups]", sig={"op": "unflatten"})
+        check_grouped(u, src, dims, labels, [[g1[0]], [g1[1]], [g2[0]], [g2[1]]], what + " [unflatten() of two groups]", {"op": "unflatten"})
+        u = lib(lambda: f.unflatten(axis=-1), what=what + " [axis=-1]", sig={"op": "unflatten"})
+        check_grouped(u, src, dims, labels, [g1, [g2[0]], [g2[1]]], what + " [axis by negative position]", {"op": "unflatten"})
         sub.append((core.digest([spec, "unflatten-axis"]), True))
     guard("unflatten", t_unflatten)
 
